@@ -10,7 +10,7 @@ from props import C01
 
 ID = "C10"
 ISOLATE = True
-CASE_TIMEOUT = 90
+CASE_TIMEOUT = 25
 RULE = ("case = C01-style generated database and planted sample + noise layers (extra quarter/half-copy read layers over drawn gene or "
         "pseudogene regions so that several structures compete, optionally carrying a core variant so that several major solutions "
         "compete) x gap in {0, 0.1, 0.3} x max_minor_solutions 1-3 x optionally one stage forced to return nothing; the returns of "
@@ -234,7 +234,7 @@ def strategy(tier):
         "noise": st.lists(st.tuples(st.integers(0, 1), st.integers(0, 8), st.sampled_from([2, 2, 4, 3]), st.sampled_from([-1, -1, 0, 1, 2, 3])).map(list),
                           min_size=1, max_size=5),
         "gap": st.sampled_from([0, 0.1, 0.3, 0.3]),
-        "mms": st.sampled_from([1, 1, 2, 3]),
+        "mms": st.sampled_from([1] * 10 + [2, 3]) if tier == "quick" else st.sampled_from([1, 1, 2, 3]),
         "kill": st.sampled_from(["none"] * 7 + ["cn", "major", "minor"]),
         "sim_seed": st.integers(0, 10 ** 6),
     })
